@@ -83,6 +83,10 @@ func init() {
 							if seen[l.Kind] == 1 || (!ctx.Quick && n%40 == 0) {
 								cs = append(cs, fw.Case{ID: fmt.Sprintf("plain/%s/%s/k=%s", name, l.Path, k), Kind: "nc", P: map[string]any{"inst": name, "path": l.Path, "k": k, "face": "plain", "pol": "all", "leafkind": l.Kind}})
 							}
+							// deferred (commitment-based) checking with forged limbs: every kind of position
+							if (seen[l.Kind] == 1 && ki == 0 && (name == "A_testdata" || !ctx.Quick)) || (!ctx.Quick && (n+ki)%97 == 0) {
+								cs = append(cs, fw.Case{ID: fmt.Sprintf("commit-forged/%s/%s/k=%s", name, l.Path, k), Kind: "nc", P: map[string]any{"inst": name, "path": l.Path, "k": k, "face": "commit", "pol": "all", "leafkind": l.Kind}})
+							}
 						}
 					}
 					// commit face sample
@@ -237,6 +241,12 @@ func init() {
 							cs = append(cs, fw.Case{ID: fmt.Sprintf("%s/%s/%s", name, l.Path, op), Kind: "list", P: map[string]any{"inst": name, "path": l.Path, "op": op, "listkind": l.Kind}})
 						}
 					}
+					// the verifier data is part of the shape too (its cap has a prescribed size)
+					for _, l := range circ.Lists(&in.VD) {
+						for _, op := range ops {
+							cs = append(cs, fw.Case{ID: fmt.Sprintf("%s/VerifierData.%s/%s", name, l.Path, op), Kind: "list", P: map[string]any{"inst": name, "path": "VerifierData." + l.Path, "op": op, "listkind": "VerifierData." + l.Kind}})
+						}
+					}
 					for i, e := range edits {
 						if ctx.Quick && name != "A_testdata" && i%3 != 0 {
 							continue
@@ -257,6 +267,12 @@ func init() {
 					for i := range lists {
 						if lists[i].Path == c.Str("path") {
 							lr = &lists[i]
+						}
+					}
+					vlists := circ.Lists(&in.VD)
+					for i := range vlists {
+						if "VerifierData."+vlists[i].Path == c.Str("path") {
+							lr = &vlists[i]
 						}
 					}
 					if lr == nil {
